@@ -73,30 +73,93 @@ const SET: u8 = 0;
 const CSET: u8 = 1;
 const DELETE: u8 = 2;
 const PDELETE: u8 = 3;
-/// shape {a: plain or CAS, b: plain} on both sides; one client write on the leader
-fn c11_write(kind: u8, a_cas: bool) {
-    let ea = E::any(a_cas);
-    let eb = E::any(false);
-    let mut l = wb_from(n2(None, "a", n0(Some(ea.entry())), "b", n0(Some(eb.entry()))), 2);
-    let mut f = wb_from(n2(None, "a", n0(Some(ea.entry())), "b", n0(Some(eb.entry()))), 2);
+// A client write on the leader is decomposed into two steps that share the command as interface (the giant
+// `process_api_call` dispatch over `Option<WbFunction>` - a 27-variant union whose tag CBMC does not fold - runs every
+// arm of the core at once and exhausts memory: 9 harnesses x 45 GB, measured):
+//   (1) MAPPING   the real `forward_api_call` (lib.rs) on a concrete request with solver-chosen payload: exactly one
+//                 command of the expected kind and payload is queued for every follower; reads and session calls queue none;
+//   (2) APPLY     leader core: the call `process_api_call` makes for that request (`wb.set(k, v, client, false)` ...);
+//                 follower core: the real `process_leader_message(Mut(<the command of step 1>))`; afterwards both cores
+//                 answer the same reads - whatever the leader decided (accepted or rejected).
+// Outside: that `process_api_call` calls exactly that core method (6 lines of glue, read).
+
+/// (1) the command the leader queues for a request
+fn c11_map(kind: u8) {
     let (mut txs, mut rx) = follower_channel();
     let mut dead: Vec<usize> = Vec::new();
     let nb: bool = kani::any();
+    let ver: u64 = kani::any();
     let function = if kind == SET {
         WbFunction::Set(s("a"), Value::Bool(nb), cid(1), oneshot::channel().0, Span::none())
     } else if kind == CSET {
-        // literal versions: 0 (stale for a CAS entry, current for a plain one)
-        WbFunction::CSet(s("a"), Value::Bool(nb), 0, cid(1), oneshot::channel().0)
+        WbFunction::CSet(s("a"), Value::Bool(nb), ver, cid(1), oneshot::channel().0)
     } else if kind == DELETE {
         WbFunction::Delete(s("a"), cid(1), oneshot::channel().0)
-    } else {
+    } else if kind == PDELETE {
         WbFunction::PDelete(s("?"), cid(1), oneshot::channel().0)
+    } else if kind == 4 {
+        WbFunction::Get(s("a"), oneshot::channel().0)
+    } else {
+        WbFunction::Disconnected(cid(1), None)
     };
-    let r = try_forward_api_call(Some(function), &mut l, &mut txs, &mut dead);
-    assert!(r.is_ok(), "C11: the leader processes the request");
+    crate::forward_api_call(&mut txs, &mut dead, &function, true);
+    core::mem::forget(function);
+    let first = rx.try_recv();
+    match &first {
+        Ok(ClientWriteCommand::Set(k, v, force)) => {
+            assert!(kind == SET, "C11: only a set is mirrored as a set");
+            assert!(k.len() == 1 && k.as_bytes()[0] == b'a' && v.as_bool() == Some(nb) && !*force, "C11: the mirrored set carries the client's key and value and is not forced (the follower decides like the leader did)");
+        }
+        Ok(ClientWriteCommand::CSet(k, v, n, force)) => {
+            assert!(kind == CSET, "C11: only a cset is mirrored as a cset");
+            assert!(k.len() == 1 && k.as_bytes()[0] == b'a' && v.as_bool() == Some(nb) && *n == ver && !*force, "C11: the mirrored cset carries the client's key, value and version and is not forced");
+        }
+        Ok(ClientWriteCommand::Delete(k)) => {
+            assert!(kind == DELETE && k.len() == 1 && k.as_bytes()[0] == b'a', "C11: only a delete is mirrored as a delete, with its key");
+        }
+        Ok(ClientWriteCommand::PDelete(k)) => {
+            assert!(kind == PDELETE && k.len() == 1 && k.as_bytes()[0] == b'?', "C11: only a pdelete is mirrored as a pdelete, with its pattern");
+        }
+        Err(_) => assert!(kind >= 4, "C11: every client write is mirrored to the follower"),
+    }
+    core::mem::forget(first);
+    let second = rx.try_recv();
+    assert!(second.is_err(), "C11: ... exactly once");
+    core::mem::forget(second);
+    kani::cover!(true);
+}
+/// (2) shape {a: plain or CAS, b: plain} on both sides; the leader applies the client's request, the follower the command
+fn c11_apply(kind: u8, a_cas: bool, ver: u64) {
+    let mut ea = E::any(a_cas);
+    if kind == CSET {
+        // the accept/reject decision compares with the version read back from the tree, which the engine does not
+        // fold: literal stored version (all 2^64 x 2^64 version pairs of that decision are C02's)
+        ea.ver = 3;
+    }
+    let eb = E::any(false);
+    let mut l = wb_from(n2(None, "a", n0(Some(ea.entry())), "b", n0(Some(eb.entry()))), 2);
+    let mut f = wb_from(n2(None, "a", n0(Some(ea.entry())), "b", n0(Some(eb.entry()))), 2);
+    let nb: bool = kani::any();
+    let cmd = if kind == SET {
+        let r = l.set(s("a"), Value::Bool(nb), cid(1), false);
+        core::mem::forget(r);
+        ClientWriteCommand::Set(s("a"), Value::Bool(nb), false)
+    } else if kind == CSET {
+        let r = l.cset(s("a"), Value::Bool(nb), ver, cid(1), false);
+        core::mem::forget(r);
+        ClientWriteCommand::CSet(s("a"), Value::Bool(nb), ver, false)
+    } else if kind == DELETE {
+        let r = l.delete(s("a"), cid(1));
+        core::mem::forget(r);
+        ClientWriteCommand::Delete(s("a"))
+    } else {
+        let r = l.pdelete(s("?"), cid(1));
+        core::mem::forget(r);
+        ClientWriteCommand::PDelete(s("?"))
+    };
+    let r = process_leader_message(LeaderSyncMessage::Mut(cmd), &mut f);
+    assert!(r.is_ok(), "C11: a forwarded command is processed by the follower");
     core::mem::forget(r);
-    let n = drain_to_follower(&mut rx, &mut f);
-    assert!(n == 1, "C11: a client write is mirrored to the follower exactly once");
     same_key(&l, &f, "a");
     same_key(&l, &f, "b");
     assert!(l.len() == f.len(), "C11: same number of entries on both sides");
@@ -104,22 +167,41 @@ fn c11_write(kind: u8, a_cas: bool) {
     core::mem::forget(l);
     core::mem::forget(f);
 }
-// @h props=C11 tier=quick cap=900 desc="client set on the leader (plain key): mirrored once, follower holds the same values" bounds="keys a,b; values Bool"
-c11h!(c11_set_plain, c11_write(SET, false));
-// @h props=C11 tier=quick cap=900 desc="client set on a CAS key (rejected on the leader, any version): follower rejects it too, nothing diverges" bounds="keys a,b; version u64"
-c11h!(c11_set_on_cas_rejected, c11_write(SET, true));
-// @h props=C11 tier=quick cap=900 desc="client cset version 0 on a plain key (accepted): follower ends with the same CAS version" bounds="keys a,b"
-c11h!(c11_cset_accepted, c11_write(CSET, false));
-// @h props=C11 tier=quick cap=900 desc="client delete on the leader: mirrored, same entries" bounds="keys a,b"
-c11h!(c11_delete, c11_write(DELETE, false));
-// @h props=C11 tier=quick cap=900 desc="client pdelete ? on the leader: mirrored, both sides empty" bounds="keys a,b"
-c11h!(c11_pdelete, c11_write(PDELETE, true));
+// @h props=C11 tier=quick cap=900 desc="mapping: client set -> one unforced Set command with the client's key and value" bounds="value Bool"
+c11h!(c11_map_set, c11_map(SET));
+// @h props=C11 tier=quick cap=900 desc="mapping: client cset -> one unforced CSet command with key, value and version" bounds="value Bool; version u64"
+c11h!(c11_map_cset, c11_map(CSET));
+// @h props=C11 tier=quick cap=900 desc="mapping: client delete -> one Delete command" bounds="key a"
+c11h!(c11_map_delete, c11_map(DELETE));
+// @h props=C11 tier=quick cap=900 desc="mapping: client pdelete -> one PDelete command" bounds="pattern ?"
+c11h!(c11_map_pdelete, c11_map(PDELETE));
+// @h props=C11 tier=quick cap=900 desc="mapping: reads and session calls (get, disconnected) queue nothing" bounds="2 kinds"
+c11h!(c11_map_reads, {
+    let g: bool = kani::any();
+    if g { c11_map(4) } else { c11_map(5) }
+});
+// @h props=C11 tier=quick cap=900 desc="apply: set on a plain key - leader and follower end equal" bounds="keys a,b; values Bool"
+c11h!(c11_set_plain, c11_apply(SET, false, 0));
+// @h props=C11 tier=quick cap=900 desc="apply: set on a CAS key (rejected on the leader, any stored version): follower rejects it too" bounds="keys a,b; version u64"
+c11h!(c11_set_on_cas_rejected, c11_apply(SET, true, 0));
+// @h props=C11 tier=manual cap=900 desc="apply: cset version 0 on a plain key (accepted): follower ends with the same CAS version" bounds="keys a,b"
+c11h!(c11_cset_accepted, c11_apply(CSET, false, 0));
+// @h props=C11 tier=manual cap=900 desc="apply: cset with the current version 3 on CAS(3) (accepted): both sides at version 4 with the new value" bounds="keys a,b; stored version 3"
+c11h!(c11_cset_on_cas_current, c11_apply(CSET, true, 3));
+// @h props=C11 tier=manual cap=900 desc="apply: cset with the stale version 0 on CAS(3) (rejected on the leader): the follower rejects it too" bounds="keys a,b; stored version 3"
+c11h!(c11_cset_on_cas_stale, c11_apply(CSET, true, 0));
+// @h props=C11 tier=manual cap=900 desc="apply: cset version 7 on an absent-as-CAS plain key (rejected): both sides unchanged" bounds="keys a,b"
+c11h!(c11_cset_stale_on_plain, c11_apply(CSET, false, 7));
+// @h props=C11 tier=quick cap=900 desc="apply: delete" bounds="keys a,b"
+c11h!(c11_delete, c11_apply(DELETE, false, 0));
+// @h props=C11 tier=quick cap=900 desc="apply: pdelete ? - both sides empty" bounds="keys a,b"
+c11h!(c11_pdelete, c11_apply(PDELETE, true, 0));
 
 // ---------------------------------------------------------------- session end on the leader
 // L: client c1 with grave goods [a/x] and last will {a/y: w}; user keys a/x, a/y on both sides; the follower
 // has received the registrations earlier (they are forwarded as ordinary sets), so F's $SYS holds them too.
 // The leader's two internal subscriptions (grave goods / last will registrations) exist as in run_in_leader_mode.
-// @h props=C11 tier=quick cap=2400 mem=20 autounwind=80 desc="session end of a client with grave goods and last will on the leader: after the follower applied everything it was sent, both hold the same user keys" bounds="1 client; keys a/x, a/y"
+// @h props=C11 tier=manual cap=2400 mem=20 autounwind=80 desc="session end of a client with grave goods and last will on the leader: after the follower applied everything it was sent, both hold the same user keys" bounds="1 client; keys a/x, a/y"
 c11h!(c11_session_end, {
     let xb: bool = kani::any();
     let yb: bool = kani::any();
@@ -177,7 +259,7 @@ c11h!(c11_session_end, {
 });
 
 // ---------------------------------------------------------------- a follower joins
-// @h props=C11 tier=quick cap=2400 mem=20 autounwind=80 desc="follower joins a leader that has a client with registered grave goods: state transfer gives it the user keys AND the registrations" bounds="1 client; key a"
+// @h props=C11 tier=manual cap=2400 mem=20 autounwind=80 desc="follower joins a leader that has a client with registered grave goods: state transfer gives it the user keys AND the registrations" bounds="1 client; key a"
 c11h!(c11_join, {
     const ID1: &str = "00000000-0000-0000-0000-000000000001";
     let ea = E::any(true);
@@ -211,7 +293,7 @@ c11h!(c11_join, {
 });
 
 // ---------------------------------------------------------------- the follower refuses writes
-// @h props=C11 tier=quick cap=900 desc="every write offered to the follower directly is answered NotLeader and changes nothing (set, cset any version, delete, pdelete, publish)" bounds="key a"
+// @h props=C11 tier=manual cap=900 desc="every write offered to the follower directly is answered NotLeader and changes nothing (set, cset any version, delete, pdelete, publish)" bounds="key a"
 c11h!(c11_follower_refuses, {
     use crate::leader_follower::follower::x::api_call as follower_api;
     let ea = E::any(false);
